@@ -91,8 +91,6 @@ NEEDS = {
  "C20-f": "a legend text with leading/trailing blanks, or two legends differing only by such blanks",
 }
 NOT_CAUGHT = {
- "C07-f": "no VIOLATION line: generator level (outside what C07 claims); the generators' contract re-checked on every run is broken -> harness error (exit 2) naming it",
- "C07-e": "no VIOLATION line: the defect is in a concrete generator (outside what C07 claims, DESIGN section 6); the check re-validates the generators' contract on small real grids on every run and ends with a harness error (exit 2) that names the broken contract",
  "C12-d": "not caught, and not catchable inside the bound: the defect is a 32-bit wrap that needs more than 46 340 cells (the check covers n <= 4 and models Python/NumPy integers as mathematical integers); the restructured counting (np.unique(return_counts) / divmod / coo_array on symbolic cell indices) is also beyond what the array model encodes, so the check ends with a harness error (exit 2), never with a pass",
  "C14-d": "not caught: the spectral sentence is covered for the sorting glue only, with ARPACK as a contract stub for the plain call; what ARPACK returns when it is handed a stale shift-invert operator is ARPACK's semantics (outside, DESIGN section 6). With sigma=None -- the only setting the glue harness uses -- the changed code behaves exactly as before, so the check passes",
 }
